@@ -49,7 +49,25 @@ def inj_sql_stage(base):
     return base.rstrip("\n") + "\nselect {zzd = 1}\nderive {zq = (date.to_text \"%Y\" zzd)}\n", None
 
 
+def inj_ml_too_many_args(base):
+    # the offending call spans several lines: location.end must be on the last of them
+    return base.rstrip("\n") + "\ntake (\n  1\n) 2 3\n", None
+
+
+def inj_ml_take_tuple(base):
+    return base.rstrip("\n") + "\ntake {\n  1,\n  2,\n}\n", None
+
+
+def inj_ml_unclosed_brace(base):
+    return base.rstrip("\n") + "\nderive {\n  zq = 1,\n  zr = (2\n}\n", None
+
+
+def inj_ml_bad_join_side(base):
+    return base.rstrip("\n") + "\njoin side:(\n  1 +\n  2\n) zz_other (==zzk)\n", None
+
+
 INJECTIONS = {
+    "ml_too_many_args": inj_ml_too_many_args, "ml_take_tuple": inj_ml_take_tuple, "ml_unclosed_brace": inj_ml_unclosed_brace, "ml_bad_join_side": inj_ml_bad_join_side,
     "lex_amp": inj_lex_amp, "unclosed_string": inj_unclosed_string, "stray_paren": inj_stray_paren,
     "missing_operand": inj_missing_operand, "unknown_name": inj_unknown_name, "unknown_func": inj_unknown_func,
     "bad_named_arg": inj_bad_named_arg, "take_string": inj_take_string, "sql_stage": inj_sql_stage,
@@ -123,11 +141,22 @@ def check_error(e, files, crlf):
         if loc and not EXOTIC_NL.search(text):
             want = (list(line_col(text, ca)), list(line_col(text, cb)))
             got = (list(loc["start"]), list(loc["end"]))
-            if crlf:
-                # a position inside the \r\n terminator is ambiguous; compare lines only there
-                pass
             if got != want:
-                fails.append("location")
+                # the position just after a line terminator can be written (line+1, 0) or
+                # (line, length of the line with its terminator): compare as offsets instead
+                starts = [0]
+                for i, ch in enumerate(text):
+                    if ch == "\n":
+                        starts.append(i + 1)
+
+                def off(lc):
+                    ln, col = lc
+                    if not (0 <= ln < len(starts)):
+                        return None
+                    end = starts[ln + 1] if ln + 1 < len(starts) else len(text)
+                    return starts[ln] + col if starts[ln] + col <= end else None
+                if (off(got[0]), off(got[1])) != (ca, cb):
+                    fails.append("location")
         disp = e.get("display")
         if disp is not None and not EXOTIC_NL.search(text):
             ln = line_col(text, ca)[0]
@@ -174,6 +203,8 @@ def judge(w, sources, root, main_path, target, token, crlf=False):
         fails, unit = res[0], res[1]
         if e.get("span"):
             info["with_span"] += 1
+            if len(res) > 2 and res[2] and "\n" in res[2]:
+                info["multiline_spans"] = info.get("multiline_spans", 0) + 1
             info["unit"][unit or "none"] = info["unit"].get(unit or "none", 0) + 1
         if fails:
             out.append(("loc:" + "+".join(fails), "span=%s location=%s reason=%r spanned=%r" % (e.get("span"), e.get("location"), e.get("reason", "")[:80], (res[2] if len(res) > 2 else None))))
@@ -244,6 +275,7 @@ def _shard(seed, shard, bases, n):
         obs["errors"] += info["errors"]
         obs["with_span"] += info["with_span"]
         obs["no_error"] += info.get("no_error", 0)
+        obs["multiline_spans"] = obs.get("multiline_spans", 0) + info.get("multiline_spans", 0)
         for k, v in info["unit"].items():
             obs["unit"][k] = obs["unit"].get(k, 0) + v
         if info["errors"]:
